@@ -184,7 +184,7 @@ CLAIM = {
             'and the end-of-line checks for ANY argv. The pinned notification by spelling is proved wrong '
             '(C02_pinned_notify_refuted) and was repaired. Model tied to the code by correspondence on rule-breaking '
             'mutations of valid lines and exhaustive small scopes for differ / disjoint and for requires / excludes lists '
-            'that share entries.',
+            'that share entries. Sub-group arguments (ArgH/SubGroup.v): what the sub-group handler does not know is handed back to the main handler (C02_subgroup_leaves_the_unknown_element); the pinned code skipped it (C02_pinned_subgroup_refuted; found by the tie, repaired).',
     'note': 'the grammar form assumes that requires/excludes lists name each argument in one way '
             '(specs_canonical; the other case is covered by the tie) and speaks about the spellings of ArgH/Spell.v; '
             'destination kinds and features outside the model are listed in the evidence assumptions. trusted: Coq '
